@@ -143,7 +143,7 @@ def rely_lemmas(ctx: RunCtx):
 
 
 # --------------------------------------------------------------------------------------------- contracts
-def contracts(T: Types, reg: Registry, G: dict):
+def contracts(T: Types, reg: Registry, G: dict, variant: str = "C11"):
     OSTR, OST = Opt(RUNNER), Opt(T.Status)
     TI = Record("ThreadInfo", [("thread", THREAD), ("invocation", T.Invocation)])
     T.ThreadInfo = TI
@@ -475,6 +475,11 @@ def more_contracts(T, reg, G, out, L):
             ("C09:a-waiting-mark-is-removed-only-together-with-the-waiter's-own-finished-thread", waiting_marks),
             ("C09:free-slots=capacity-minus-the-live-threads-that-are-not-waiting", lambda c: c.result == slots(c) - ops.card(live_not_waiting(c), ID.sort())),
         ] + state_post + [("claims-nothing", no_new_claims)])], properties=[PID])
+    if L.get("variant") == "C09":
+        # the C09 view of this function: waiting marks and slot count only (the C11 clause about dropped entries is decided - and fails, F-C11-2 - in the C11 check)
+        drop = lambda n: n.startswith("C11:")
+        reclaim.loops[0].inv = [(n, f) for n, f in reclaim.loops[0].inv if not drop(n)]
+        reclaim.cases[0].ensures = [(n, f) for n, f in reclaim.cases[0].ensures if not drop(n)]
     reclaim.local_types = {"alive_threads": TABLE}
     reclaim.ghost_init = {"g:live": SID}
     reclaim.step_hooks = [env_step]
